@@ -19,6 +19,8 @@ mod isa;
 mod m_bus;
 mod m_cost;
 mod m_elf;
+mod m_run;
+mod m_run_gen;
 mod m_step;
 mod util;
 
@@ -38,6 +40,7 @@ fn mode_for(name: &str) -> Option<Box<dyn Mode>> {
         "cost" => Some(Box::new(m_cost::CostMode::new())),
         "step" => Some(Box::new(m_step::StepMode::new())),
         "elf" => Some(Box::new(m_elf::ElfMode::new())),
+        "run" => Some(Box::new(m_run::RunMode::new())),
         "bus09" => Some(Box::new(m_bus::BusMode::new(9))),
         "bus16" => Some(Box::new(m_bus::BusMode::new(16))),
         "bus17" => Some(Box::new(m_bus::BusMode::new(17))),
@@ -86,7 +89,9 @@ fn main() {
         known: get("--known", "").split(',').filter(|s| !s.is_empty()).map(|s| s.to_string()).collect(),
     };
     // panics are expected outcomes in some modes; keep the default hook quiet
-    std::panic::set_hook(Box::new(|_| {}));
+    if std::env::var("H8_PANIC_VERBOSE").is_err() {
+        std::panic::set_hook(Box::new(|_| {}));
+    }
 
     if mode == "replay" {
         let text = std::fs::read_to_string(ctx.replay.as_ref().expect("--replay FILE")).unwrap();
